@@ -125,7 +125,8 @@ def main(argv):
             bounded.append({'id': u.uid, 'bound': is_bounded, 'label': 'bounded (not counted as proved)',
                             'tool': 'pyvc symbolic execution, symbolic contents / concrete size',
                             'obligations': len(obs), 'discharged': sum(1 for o in obs if o['result'] == 'discharged'),
-                            'result': 'clean' if all(o['result'] == 'discharged' for o in obs) else 'not clean',
+                            'result': ('error' if r.get('errors') or not obs else
+                                       'clean' if all(o['result'] == 'discharged' for o in obs) else 'not clean'),
                             'wall_s': r.get('wall_s')})
         for ob in r.get('obligations', []):
             rec = {k: v for k, v in ob.items() if k not in ('cex',)}
